@@ -7,6 +7,8 @@ lends objects k in {1,2} to peer P.  Events:
   ("drop", i)          P drops one reference it holds
   ("back", i)          P passes a proxy it holds back to O (asynchronous call O.give(p)); O must see the original
   ("dcs",) / ("dsc",)  the receiving side processes exactly one pending frame (client->server / server->client)
+  ("fetch", k, shape)  P asks O for object k asynchronously: the reference travels in a reply;
+  ("collect", i) / ("discard", i)  P reads the value of a ready asynchronous result / drops the result unread
   ("close",)           O closes the connection
 State = history (rebuilt from scratch on the real code for every transition); canonical key = owner table
 counts, P's references with identity structure and proxy counts, both in-flight queues (decoded, ids replaced
@@ -40,6 +42,11 @@ class Thing(object):
 class OwnerService(_rpyc.Service):
     def __init__(self):
         self.given = []
+        self.objs = {}
+
+    def exposed_get(self, k, shape):
+        o = self.objs[k]
+        return o if shape == "one" else (o, 0)
 
     def exposed_give(self, obj):
         self.given.append(obj)
@@ -58,6 +65,7 @@ class PeerService(_rpyc.Service):
 
 SHAPES = ("one", "tup1", "tup2", "tupmix")
 ACTIVE_SHAPES = [SHAPES]
+ACTIVE_FETCH = [0]       # how many times the peer may ASK for an object (reference travels in a reply, collected or not)
 
 
 class Sys(object):
@@ -70,6 +78,9 @@ class Sys(object):
         self.objs = {}
         for k in range(1, nobj + 1):
             self.objs[k] = [k] if kind == "list" else Thing(k)
+        self.osvc.objs = self.objs
+        self.presults = []
+        self.fetches = 0
         self.labels = {}
         for k, o in self.objs.items():
             self.labels[id(o)] = "obj%d" % k
@@ -94,6 +105,7 @@ class Sys(object):
         self.drive(self.P, lambda: setattr(self, "a_give", _rpyc.async_(self.oroot.give)), self.O, c)
         self.s_take = None
         self.drive(self.O, lambda: setattr(self, "s_take", self.proot.take), self.P, s)
+        self.drive(self.P, lambda: setattr(self, "a_get", _rpyc.async_(self.oroot.get)), self.O, c)
         if kind == "thing":
             warm = Thing(0)
             self.labels[id(warm)] = "warm"
@@ -177,6 +189,18 @@ class Sys(object):
             p = self.psvc.held[ev[1]]
             self.drive(self.P, lambda: self.pending.append(self.a_give(p)), self.O, c)
             del p
+        elif op == "fetch":
+            # the peer asks for object k asynchronously: the reference travels in a REPLY
+            self.fetches += 1
+            self.drive(self.P, lambda: self.presults.append(self.a_get(ev[1], ev[2])), self.O, c)
+        elif op == "collect":
+            def take():
+                v = self.presults.pop(ev[1]).value
+                self.psvc.held.append(v[0] if type(v) is tuple else v)
+            self.drive(self.P, take, self.O, c)
+        elif op == "discard":
+            # the asynchronous result is dropped without ever being looked at
+            self.drive(self.P, lambda: self.presults.pop(ev[1]) and None, self.O, c)
         elif op == "dcs":
             if self.closed:
                 # the peer reads the rest of a closed stream: the close request ends its side with EOFError
@@ -226,6 +250,14 @@ class Sys(object):
             out.append(("drop", i))
             if self.backs < max_backs:
                 out.append(("back", i))
+        if self.fetches < ACTIVE_FETCH[0]:
+            for k in sorted(self.objs):
+                out.append(("fetch", k, "one"))
+                out.append(("fetch", k, "tupmix"))
+        for i, r in enumerate(self.presults):
+            if r._is_ready:
+                out.append(("collect", i))
+            out.append(("discard", i))
         if self.w.b.inbox:
             out.append(("dcs",))
         if self.w.a.inbox:
@@ -264,7 +296,8 @@ class Sys(object):
         cache = sorted((repr(cn.enc(kk)) for kk in s._proxy_cache._dict.keys())) if not s.closed else ()
         return (tuple(table), tuple(held), tuple(cache), cn.enc(self.frames(self.w.a)), cn.enc(self.frames(self.w.b)),
                 tuple(sorted(self.sends.items())), self.backs, c.closed, s.closed, len(self.osvc.given),
-                len(c._request_callbacks) if not c.closed else -1)
+                len(c._request_callbacks) if not c.closed else -1, self.fetches, tuple(bool(r._is_ready) for r in self.presults),
+                len(s._request_callbacks) if not s.closed else -1)
 
     # -- probes (destructive)
     def probe_use_then_close(self):
@@ -299,8 +332,11 @@ class Sys(object):
         for _ in range(50):
             # in-flight references turn into new proxies when delivered: drop and deliver until nothing is left
             self.drive(self.P, lambda: held.__delitem__(slice(None)), self.O, c)
+            # asynchronous results nobody looked at are dropped as well (the peer holds NOTHING)
+            pres = self.presults
+            self.drive(self.P, lambda: pres.__delitem__(slice(None)), self.O, c)
             self.quiesce()
-            if not held and not self.w.a.inbox and not self.w.b.inbox:
+            if not held and not pres and not self.w.a.inbox and not self.w.b.inbox:
                 break
         else:
             raise S.HarnessError("drop-all probe does not settle")
@@ -342,6 +378,7 @@ def _run_history(kind, nobj, hist, max_sends, max_backs, with_ssend, mode):
     if sy is not None:
         sy.psvc.held[:] = []
         sy.pending[:] = []
+        sy.presults[:] = []
         sy.w.shutdown()
     if exc is not None:
         if isinstance(exc, S.HarnessError):
@@ -389,6 +426,7 @@ CONFIGS = {
         ("list/1obj/3sends", "list", 1, 3, 1, True, 40),
         ("list/2obj/2sends/shapes=one,tup2", "list", 2, 2, 0, False, 40),
         ("thing/1obj/2sends", "thing", 1, 2, 1, True, 40),
+        ("list/1obj/1send/fetch=2/shapes=one", "list", 1, 1, 1, False, 40),
     ],
     "thorough": [
         ("list/1obj/4sends", "list", 1, 4, 2, True, 60),
@@ -396,6 +434,9 @@ CONFIGS = {
         ("list/2obj/3sends/shapes=one", "list", 2, 3, 0, False, 60),
         ("thing/1obj/3sends", "thing", 1, 3, 1, True, 60),
         ("thing/2obj/2sends/shapes=one,tup2", "thing", 2, 2, 0, False, 60),
+        ("list/1obj/2sends/fetch=2/shapes=one,tup2", "list", 1, 2, 1, False, 60),
+        ("list/2obj/1send/fetch=3/shapes=one", "list", 2, 1, 0, False, 60),
+        ("thing/1obj/1send/fetch=2/shapes=one", "thing", 1, 1, 1, False, 60),
     ],
 }
 
@@ -432,10 +473,13 @@ def probe_states(res_states, probe):
 
 
 def set_shapes(name):
-    if "/shapes=" in name:
-        ACTIVE_SHAPES[0] = tuple(name.split("/shapes=")[1].split(","))
-    else:
-        ACTIVE_SHAPES[0] = SHAPES
+    ACTIVE_FETCH[0] = 0
+    ACTIVE_SHAPES[0] = SHAPES
+    for part in name.split("/"):
+        if part.startswith("shapes="):
+            ACTIVE_SHAPES[0] = tuple(part[7:].split(","))
+        if part.startswith("fetch="):
+            ACTIVE_FETCH[0] = int(part[6:])
 
 
 def run_config(cfg, max_seconds):
